@@ -34,6 +34,7 @@ const goschedSite = "runtime.Gosched"
 
 type parkedG struct {
 	site string
+	key  int64 // the goroutine's spawn number (verifsim.GKey): the same on every run, unlike the order of arrival
 	seq  int64
 	ch   chan struct{}
 }
@@ -52,7 +53,7 @@ func (s *coop) next() int {
 // install makes the scheduler the target of the instrumented yield and select points.
 func (s *coop) install() {
 	verifsim.SetYieldHook(func(site string) {
-		g := &parkedG{site: site, seq: s.seq.Add(1), ch: make(chan struct{})}
+		g := &parkedG{site: site, key: verifsim.GKey(), seq: s.seq.Add(1), ch: make(chan struct{})}
 		s.mu.Lock()
 		s.parked = append(s.parked, g)
 		s.mu.Unlock()
@@ -88,6 +89,9 @@ func (s *coop) take(pick int) *parkedG {
 	sort.Slice(s.parked, func(i, j int) bool {
 		if s.parked[i].site != s.parked[j].site {
 			return s.parked[i].site < s.parked[j].site
+		}
+		if s.parked[i].key != s.parked[j].key {
+			return s.parked[i].key < s.parked[j].key
 		}
 		return s.parked[i].seq < s.parked[j].seq
 	})
